@@ -362,6 +362,18 @@ theorem propagateDft_common_real_shift {K R : Type} [CommRing R] [RealLike R] [T
   rw [e0, e1] at h
   exact h
 
+/-- **The split of a field's shift in the model is the regenerated split of `propagate_dft`**: `tfieldOfShift` (integer part `trunc`,
+sub-pixel part `shift − trunc`) is `Gen.dftShiftSplit` — read from `fix_shift = np.fix(shift)`, `subpx_shift = shift - fix_shift` — with
+`np.fix` = truncation, whatever `floor` / `round` / `ceil` are; and the shift is asked from `Field.shift` at the wavefront's focal
+length and wavelength, the call's `pixelscale` and `oversample`, in (row, column) order (`Gen.dftShiftArgs`). Another rounding in the
+source (floor, round) changes `Gen.dftShiftSplit` and this proof stops checking. -/
+theorem shift_split_is_generated {K R : Type} [Add R] [Sub R] [Mul R] [Div R] [RealLike R] [TruncLike R] (fl rd ce : R → R) (f : Fld K) (s0 s1 : R)
+    (zf wlf du0 du1 os : R) :
+    Gen.dftShiftSplit (fun s => RealLike.ofInt (TruncLike.trunc s)) fl rd ce s0 s1
+      = ((RealLike.ofInt (tfieldOfShift f s0 s1).fix0, RealLike.ofInt (tfieldOfShift f s0 s1).fix1),
+         ((tfieldOfShift f s0 s1).sub0, (tfieldOfShift f s0 s1).sub1)) ∧
+    Gen.dftShiftArgs zf wlf du0 du1 os = ((zf, wlf, (du0, du1), os), true) := ⟨rfl, rfl⟩
+
 /-- the real truncation toward zero (`np.fix`): `⌊s⌋` for `s ≥ 0`, `⌈s⌉` otherwise -/
 noncomputable instance instTruncLikeReal : TruncLike ℝ := ⟨fun s => if 0 ≤ s then ⌊s⌋ else ⌈s⌉⟩
 
